@@ -247,7 +247,7 @@ def harness(cx, cfg):
         base = what.split("_")[0]
         unit_in, unit_out = units
         if what == "eq2xyz":
-            ra = trig.angle("ra")
+            ra = trig.angle("ra", -720, 1080)      # within three turns (a wrap loop in the code terminates)
             dec = trig.angle("dec", -90, 90)
             x, y, z = co.eq2xyz(ra, dec)
             x, y, z = x.tolist()[0], y.tolist()[0], z.tolist()[0]
@@ -438,6 +438,13 @@ def replay(cand):
         w = (math.cos(math.radians(ra)) * math.cos(math.radians(dec)), math.sin(math.radians(ra)) * math.cos(math.radians(dec)), math.sin(math.radians(dec)))
         if not np.allclose([x[0], y[0], z[0]], w, atol=1e-12):
             return {"reproduced": True, "key": "eq2xyz", "what": "eq2xyz(%r, %r) = %r, expected %r" % (ra, dec, (x[0], y[0], z[0]), w)}
+        for ra_, dec in [(r_, d_) for r_ in (ra, ra - 360.0, -100.0, -0.5, 400.0, -359.0) for d_ in (dec, 10.0)]:
+            vd = co.eq2xyz(ra_, dec)
+            vr = co.eq2xyz(math.radians(ra_), math.radians(dec), units="rad")
+            vp = co.eq2xyz(ra_ + 360.0, dec)
+            if max(abs(float(a[0]) - float(b[0])) for a, b in zip(vd, vr)) > 1e-12 or max(abs(float(a[0]) - float(b[0])) for a, b in zip(vd, vp)) > 1e-12:
+                return {"reproduced": True, "key": "eq2xyz:units-periodicity",
+                        "what": "eq2xyz(%r, %r): degrees %r, the same point in radians %r, one turn later %r" % (ra_, dec, [float(v[0]) for v in vd], [float(v[0]) for v in vr], [float(v[0]) for v in vp])}
         L = np.longdouble
         d2r = np.arctan(L(1)) * 4 / 180
         for ra_, dec_ in ((33.0, 89.9999), (211.5, -89.999999), (100.0, 89.99999999), (7.0, 89.9), (300.0, -89.99)):
